@@ -6,11 +6,12 @@ EXTENDS CqlValue, Json, IOUtils, TLC
 Rec == ndJsonDeserialize(IOEnv.TRACE)
 VARIABLE l
 TraceInit == l = 1 /\ TLCSet(1, 1)
-IsNull(x) == x = "null"      \* JSON null is deserialised as the string "null"
+IsNull(x) == x = ""          \* absent error texts are written as empty strings (TLC's Json has no null)
 Good(r) ==
   /\ IsNull(r.ser_err)
-  /\ r.cell = Cell(r.t, r.v)
-  /\ \/ (~IsNull(r.decoded) /\ r.decoded.k = "skip")
+  \* a tuple / UDT given fewer fields than its type may be written short or with explicit trailing nulls
+  /\ (r.cell = Cell(r.t, r.v) \/ r.cell = Cell(r.t, Pad(r.t, r.v)))
+  /\ \/ r.decoded.k = "skip"
      \/ (IsNull(r.de_err) /\ r.decoded = Pad(r.t, r.v))
 TraceNext == l <= Len(Rec) /\ Good(Rec[l]) /\ l' = l + 1
 TraceSpec == TraceInit /\ [][TraceNext]_l
